@@ -159,6 +159,13 @@ pub fn gen_c12(rng: &mut Rng, d: &mut Dist, _idx: u64) -> Vec<String> {
                 bump(d, "keyless");
                 (-1, vec![])
             };
+            // "no partition given" is any negative number, not only the -1 the convenience constructors write
+            let p = if p == -1 && uniq % 4 == 3 {
+                bump(d, "unspecified-partition-other-than-minus-one");
+                [-2i64, i32::MIN as i64, -100][(uniq / 4 % 3) as usize]
+            } else {
+                p
+            };
             let mut v = uniq.to_be_bytes().to_vec();
             let extra = rng.below(6) as usize;
             v.extend(rng.bytes(extra));
@@ -897,10 +904,25 @@ pub fn gen_c14(rng: &mut Rng, d: &mut Dist, idx: u64) -> Vec<String> {
     // a 15 on a commit/fetch answer is not retryable there (fatal); keep it, the spec says so too
     out.push(format!("SCRIPT {} {}", target, codes.join(" ")));
     bump(d, &format!("script-on-api-{}", target));
+    // a connection that dies under the call (closed by the other side after the request was read, or refusing the request):
+    // that is a failed exchange, not a retryable answer - the call ends there, whatever the retry limit
+    let wire = idx >= exhaustive && idx % 4 == 1;
+    if wire {
+        let f = *rng.pick(&["eof_read", "fail_send", "eof_read", "timeout_read"]);
+        bump(d, &format!("connection-dies-under-the-call-{}", f));
+        if !moved {
+            // the connection to the coordinator is an established one
+            out.push(format!("OP c fetch_group_offsets {} {} 0", h("grp"), h(&t.name)));
+        }
+        out.push(format!("H {} {}", f, rng.below(3)));
+    }
     match opk {
         0 => out.push(format!("OP c commit_offsets {} {} 0 5", h("grp"), h(&t.name))),
         1 => out.push(format!("OP c fetch_group_offsets {} {} 0", h("grp"), h(&t.name))),
         _ => out.push(format!("OP c fetch_group_topic_offset {} {}", h("grp"), h(&t.name))),
+    }
+    if wire {
+        out.push("H clear_faults".into());
     }
     // a follow-up call: must still work and go to the right coordinator
     out.push(format!("SCRIPT {}", target));
@@ -1234,7 +1256,7 @@ fn shuffled<T: Clone>(rng: &mut Rng, xs: &[T]) -> Vec<T> {
 }
 
 /// C16: every option x boundary values x permutations of builder calls x from hosts / from a pre-configured client.
-pub fn gen_c16(rng: &mut Rng, d: &mut Dist, _idx: u64) -> Vec<String> {
+pub fn gen_c16(rng: &mut Rng, d: &mut Dist, idx: u64) -> Vec<String> {
     let cl = Cluster::random(rng, 2, false);
     let mut out = cl.setup_lines();
     let t = &cl.topics[0];
@@ -1361,6 +1383,26 @@ pub fn gen_c16(rng: &mut Rng, d: &mut Dist, _idx: u64) -> Vec<String> {
         out.push("OP k get_config".into());
         out.push("OP poll".into());
         out.push("OP poll".into());
+        // a setter on the consumer's own client after creation: the Fetch requests that follow carry the new values, on every
+        // partition, whether or not data keeps coming
+        if idx % 3 == 1 {
+            bump(d, "setter-after-creation");
+            let np = t.leaders.len();
+            for round in 0..2 {
+                for p in 0..np {
+                    if t.leaders[p] >= 0 && (round == 0 || rng.chance(1, 2)) {
+                        out.push(format!("APPEND {} {} plain {} ~ {:02x}", h(&t.name), p, 10 + round, round));
+                    }
+                }
+                match rng.below(3) {
+                    0 => out.push(format!("OP k set fetch_max_bytes {}", rng.pick(&[4096i64, 70_000, 1 << 20, 333]))),
+                    1 => out.push(format!("OP k set fetch_min_bytes {}", rng.pick(&[0i64, 1, 77, 4096]))),
+                    _ => out.push(format!("OP k set fetch_max_wait {} {}", rng.pick(&[0i64, 1, 60]), rng.pick(&[0i64, 5_000_000, 250_000_000]))),
+                }
+                out.push("OP poll".into());
+                out.push("OP poll".into());
+            }
+        }
     } else {
         bump(d, "producer-builder");
         let all: Vec<String> = vec![
@@ -1388,7 +1430,7 @@ pub fn gen_c16(rng: &mut Rng, d: &mut Dist, _idx: u64) -> Vec<String> {
 
 /// C07: boundary lattice per partition committed in {none, e-1, e, e+1, mid, l-1, l, l+1} x (e = l | e < l) x fallback x
 /// group set/unset x storage, over multi-topic / multi-partition / multi-broker assignments.
-pub fn gen_c07(rng: &mut Rng, d: &mut Dist, _idx: u64) -> Vec<String> {
+pub fn gen_c07(rng: &mut Rng, d: &mut Dist, idx: u64) -> Vec<String> {
     let cl = Cluster::random(rng, 3, false);
     let mut out = cl.setup_lines();
     let group = rng.chance(4, 5);
@@ -1443,7 +1485,10 @@ pub fn gen_c07(rng: &mut Rng, d: &mut Dist, _idx: u64) -> Vec<String> {
     // a third of the consumers are built from a client that was configured beforehand: with the same storage (inherited or
     // named again) or with the other one (the builder's word counts)
     let mut from = format!("hosts={}", cl.bootstrap());
-    if rng.chance(1, 3) {
+    // one history in eight: the client handed in has a request behind it that ran into the read time-out, its reply arriving
+    // late; what the consumer then asks must be answered by its own replies
+    let late = idx % 8 == 3;
+    if rng.chance(1, 3) || late {
         bump(d, "from-client");
         out.push(format!("OP client_new {}", cl.bootstrap()));
         let other = if storage == "zk" { "kafka" } else { "zk" };
@@ -1463,6 +1508,13 @@ pub fn gen_c07(rng: &mut Rng, d: &mut Dist, _idx: u64) -> Vec<String> {
         }
         out.push("OP c load_metadata_all".into());
         from = "client".to_string();
+        if late {
+            bump(d, "from-client-after-a-timed-out-request");
+            let ts: Vec<String> = cl.topics.iter().map(|t| h(&t.name)).collect();
+            out.push(format!("H timeout_read {}", rng.below(2)));
+            out.push(format!("OP c fetch_offsets {} {}", rng.pick(&[-1i64, -2]), ts.join(" ")));
+            out.push("H clear_faults".into());
+        }
         // the look-up of the group's offsets does not go through at once: retriable answers (within the retry limit) must end
         // at the committed offsets all the same, an answer that is final must fail the creation
         if group && rng.chance(1, 2) {
@@ -1487,7 +1539,7 @@ pub fn gen_c07(rng: &mut Rng, d: &mut Dist, _idx: u64) -> Vec<String> {
 
 /// C19: assignment maps over topics whose names sort around each other; explicit lists with duplicates / unsorted /
 /// out-of-range / negative ids; overriding calls; leaderless partitions; then operations on consumed and foreign partitions.
-pub fn gen_c19(rng: &mut Rng, d: &mut Dist, _idx: u64) -> Vec<String> {
+pub fn gen_c19(rng: &mut Rng, d: &mut Dist, idx: u64) -> Vec<String> {
     let mut cl = Cluster::random(rng, 4, true);
     // more topics so that the sorted table has something to search
     let pool = ["t", "ta", "tb", "T", "u", "t-1", "t\u{e4}", "a.b", "zz", "t\u{0}", "tab"];
@@ -1536,11 +1588,35 @@ pub fn gen_c19(rng: &mut Rng, d: &mut Dist, _idx: u64) -> Vec<String> {
         bump(d, "assign-nothing");
     }
     let group = rng.chance(1, 2);
+    // one history in five: the group has committed offsets for some of the partitions only (valid ones: the logs hold offsets
+    // 0..2), with every kind of fallback - the consumer is created for all its partitions or not at all
+    let partial = idx % 5 == 2;
+    let group = group || partial;
     if group {
         opts.push(format!("group={}", h("grp")));
         opts.push(format!("storage={}", rng.pick(&["zk", "kafka"])));
     }
-    opts.push("fallback=earliest".into());
+    if partial {
+        bump(d, "group-with-commits-for-some-partitions");
+        let mut any = false;
+        for t in &cl.topics {
+            for p in 0..t.leaders.len() {
+                if t.leaders[p] >= 0 && (!any || rng.chance(1, 2)) {
+                    any = true;
+                    out.push(format!("COMMITTED {} {} {} {}", h("grp"), h(&t.name), p, rng.below(4)));
+                }
+            }
+        }
+        let fb = match idx / 5 % 3 {
+            0 => format!("time:{}", rng.below(50)),
+            1 => "latest".to_string(),
+            _ => "earliest".to_string(),
+        };
+        bump(d, &format!("partial-commits-fallback-{}", fb.split(':').next().unwrap()));
+        opts.push(format!("fallback={}", fb));
+    } else {
+        opts.push("fallback=earliest".into());
+    }
     out.push(format!("OP consumer_create hosts={} {}", cl.bootstrap(), opts.join(" ")));
     out.push("OP subscriptions".into());
     let nops = 3 + rng.below(8);
@@ -1972,11 +2048,21 @@ pub fn real_wrapper(rng: &mut Rng, codec: u8, last_offset: i64, inner: &[u8]) ->
     } else {
         let chunk = *rng.pick(&[16usize, 100, 4096, 1 << 16]);
         let mut out = vec![0x82, b'S', b'N', b'A', b'P', b'P', b'Y', 0, 0, 0, 0, 1, 0, 0, 0, 1];
-        for c in inner.chunks(chunk) {
+        // a block that uncompresses to nothing (length 1, the varint 0) is legal framing and carries no data; one in
+        // five frames gets one, placed before, between or after the data blocks (chosen from the input, not the PRNG)
+        let nchunks = (inner.len() + chunk - 1) / chunk;
+        let empty_at = if (inner.len() as i64 + last_offset).rem_euclid(5) == 0 { Some(inner.len() % (nchunks + 1)) } else { None };
+        for (i, c) in inner.chunks(chunk).enumerate() {
+            if empty_at == Some(i) {
+                out.extend([0u8, 0, 0, 1, 0]);
+            }
             let mut buf = vec![0; snap::raw::max_compress_len(c.len())];
             let n = snap::raw::Encoder::new().compress(c, &mut buf).unwrap();
             out.extend((n as i32).to_be_bytes());
             out.extend(&buf[..n]);
+        }
+        if empty_at == Some(nchunks) {
+            out.extend([0u8, 0, 0, 1, 0]);
         }
         out
     };
@@ -3283,7 +3369,9 @@ pub fn gen_c13(rng: &mut Rng, d: &mut Dist, idx: u64) -> Vec<String> {
         }
     } else if replies.iter().any(|r| r.1 == 1) && group % 2 == 0 && within / 2 < 21 {
         // histories with fetches: every hostile compressed payload and a ladder of nesting depths, on a random fetch reply
-        let j = within / 2;
+        // the slots taken by the shape / lifecycle histories above leave every third j unused: shift by the group number so
+        // that every payload and every depth of the ladder comes up
+        let j = (within / 2 + group / 2) % 21;
         let cands: Vec<&(usize, i16, Vec<u8>)> = replies.iter().filter(|r| r.1 == 1).collect();
         let (k, _, p) = (*rng.pick(&cands)).clone();
         let w = crate::hostile::walk(1, &p);
